@@ -48,4 +48,12 @@ def modelStarts (mode : Option Bool) (is : List (Instr Rat)) : Option (List Rat)
     if ns.all (fun i => i.used.isEmpty) then none else
     some ((Sched.pulseStarts (schedCfg alap) ns).map fun (s : Int) => ((s : Rat) / (D : Rat)))
 
+/-- what a processor holds after `load_circuit`: the result of this load if it succeeded; if the load is REFUSED (it raises:
+transpile or the compiler refuse the circuit, a label names no control) the processor keeps what it held before the call -
+pulses and reported global phase (`prev`).  `load_circuit` stores nothing before the compiler has returned. -/
+def afterLoad {σ ε : Type} (prev : σ) (r : Except ε σ) : σ :=
+  match r with
+  | .ok x => x
+  | .error _ => prev
+
 end QipVerif.SpinChain
